@@ -373,16 +373,16 @@ def xbuf_goal(r):
     return None
 
 
-PROOF_BUDGET_S = 6.0
+PROOF_BUDGET_S = 4.0
 
 
-def budgeted_prove(facts, goal, max_cases=None):
+def budgeted_prove(facts, goal, max_cases=None, budget=None):
     """prove() under a wall-clock budget; -> ('budget', reason) when exceeded"""
     import time as _t
     from . import linear as _lin
     from .linear import ProofBudgetExceeded
     old = _lin.DEADLINE[0]
-    _lin.DEADLINE[0] = _t.time() + PROOF_BUDGET_S
+    _lin.DEADLINE[0] = _t.time() + (budget or PROOF_BUDGET_S)
     try:
         return prove(facts, goal, max_cases=max_cases)
     except ProofBudgetExceeded:
